@@ -275,9 +275,9 @@ Qed.
 Lemma classify_cases : forall ts,
   (exists t, classify ts = OTerm t) \/ classify ts = OErrSyn \/ classify ts = OUnknown \/ classify ts = OParseFuel.
 Proof.
-  intros ts. unfold classify.
-  destruct (negb (balanced [] ts)); [auto|].
-  destruct (existsb tok_unknown ts); [auto|].
+  intros ts. unfold classify. cbv zeta.
+  destruct (negb _); [auto|].
+  destruct (existsb _ _); [auto|].
   destruct (parse _ _ _) as [t p rest|l rest| | |]; auto.
   destruct rest as [|t0 rest']; auto. destruct t0; auto. destruct rest'; auto. left. eauto.
 Qed.
